@@ -305,7 +305,13 @@ def scan(repo="/repo"):
     out = sorted(sites.values(), key=lambda s: (s["file"], s["line"], s["code"]))
     for s in out:
         s["id"] = hashlib.sha1(("%s::%s::%s" % (s["file"], s["fn"], s["code"])).encode()).hexdigest()[:12]
+        s["coarse"] = coarse_id(s)
     return out, files
+
+
+def coarse_id(s):
+    """identity of a site that survives edits of the rest of its statement: file, fn, kind, receiver."""
+    return hashlib.sha1(("%s::%s::%s::%s" % (s["file"], s["fn"], s["kind"], s.get("receiver", ""))).encode()).hexdigest()[:12]
 
 
 def fn_bodies(files):
@@ -316,22 +322,42 @@ def fn_bodies(files):
     return bodies
 
 
+TOLERANT_CLASSES = ("sorted before output", "not-a-hash-container", "order-exporting")
+
+
 def compare(sites, reviewed, files):
-    """-> dict(new=[site], vanished=[entry], evidence_lost=[entry])"""
+    """-> dict(new=[site], vanished=[entry], evidence_lost=[entry], tolerated=[entry])
+
+    A reviewed site whose statement text changed is `vanished` + `new` -- except when its class is justified by its
+    recorded evidence alone (`sorted before output`: the sort is still in the function; `not-a-hash-container`,
+    `order-exporting`: same receiver, same function): then the edit is tolerated and listed under `tolerated`."""
     cur = {s["id"]: s for s in sites}
     rev = {e["id"]: e for e in reviewed.get("sites", [])}
     new = [s for i, s in cur.items() if i not in rev]
     vanished = [e for i, e in rev.items() if i not in cur]
     bodies = fn_bodies(files)
+
+    def evidence_ok(e):
+        text = " ".join(bodies.get((e["file"], e["fn"]), []))
+        return [ev for ev in e.get("evidence", []) if not re.search(ev, text)]
+
     lost = []
     for i, e in rev.items():
         if i not in cur:
             continue
-        for ev in e.get("evidence", []):
-            text = " ".join(bodies.get((e["file"], e["fn"]), []))
-            if not re.search(ev, text):
-                lost.append(dict(e, missing_evidence=ev))
-    return {"new": new, "vanished": vanished, "evidence_lost": lost}
+        for ev in evidence_ok(e):
+            lost.append(dict(e, missing_evidence=ev))
+    tolerated = []
+    for e in list(vanished):
+        if e.get("class") not in TOLERANT_CLASSES:
+            continue
+        ce = e.get("coarse") or coarse_id(e)
+        match = [s for s in new if s["coarse"] == ce]
+        if len(match) == 1 and not evidence_ok(e) and (e.get("evidence") or e.get("class") != "sorted before output"):
+            vanished.remove(e)
+            new.remove(match[0])
+            tolerated.append(dict(e, now=match[0]["code"]))
+    return {"new": new, "vanished": vanished, "evidence_lost": lost, "tolerated": tolerated}
 
 
 def main():
